@@ -26,4 +26,75 @@ PROPS = {
         "partial": [],
         "assumptions": ["the per-level solve is a parameter of the priority theorems: they hold for whatever solve_inner computes"],
     },
+    "C14": {
+        "modules": ["Ezpz.Properties.C14"],
+        "suites": [
+            {"suite": "trace", "quick": (400, "caps,prio,planted,contra"), "thorough": (6000, "caps,prio,planted,contra,linear,malformed")},
+        ],
+        "oracles": [
+            {"bin": "oracle_c14", "quick": ("{seed}", "300"), "thorough": ("{seed}", "6000")},
+        ],
+        "partial": ["solve_cap_monotone_partial: for several priority levels cap-monotonicity is proved under the hypothesis that no level fails with DidNotConverge under the smaller cap; without it the statement is false of the code (known finding F11)",
+                    "the 'tightening the tolerance yields errors <= tolerance' clause is a convergence claim about the f64 iteration: checked by the oracle on the real code only"],
+        "assumptions": ["the LU solve is a parameter indexed by (level, iteration): the theorems hold for every such family"],
+    },
+    "C01": {
+        "modules": ["Ezpz.Properties.C01"],
+        "suites": [
+            {"suite": "kernels", "quick": (150,), "thorough": (3000,)},
+            {"suite": "trace", "quick": (300, "planted,contra,prio,linear"), "thorough": (5000, "planted,contra,prio,linear,caps,malformed")},
+        ],
+        "oracles": [
+            {"bin": "oracle_c01", "quick": ("{seed}", "600"), "thorough": ("{seed}", "20000")},
+        ],
+        "partial": ["point_arc_verdict: for PointArcCoincident only 'on the circle' is guaranteed by a satisfied verdict; the arc's sweep is not checked within 0.05 of the circle (known finding F14)",
+                    "the geometric meaning of each error measure (residual_measures_<kind>) is proved over the reals in Ezpz/Real (see evidence of C13/C01 real part when present); in f64 it is checked by the independent geometric oracle only"],
+        "assumptions": ["EPSILON is the value extracted from lib.rs on this run"],
+    },
+    "C06": {
+        "modules": ["Ezpz.Properties.C06"],
+        "suites": [
+            {"suite": "kernels", "quick": (150,), "thorough": (3000,)},
+            {"suite": "trace", "quick": (400, "malformed,planted,contra,caps"), "thorough": (8000, "malformed,planted,contra,caps,prio,linear")},
+        ],
+        "oracles": [
+            {"bin": "oracle_c06", "quick": ("{seed}", "3000"), "thorough": ("{seed}", "100000")},
+        ],
+        "partial": ["panics inside faer, float overflow producing non-finite intermediates (caught by the guard, not prevented) and memory exhaustion are runtime behaviour the model cannot exhibit; they are covered by the oracle on the real code only"],
+        "assumptions": ["LinSolveTotal / SvdTotal: faer returns a step with one entry per variable and a V of at least n x n entries, and reports failures as errors"],
+    },
+    "C07": {
+        "modules": ["Ezpz.Properties.C07"],
+        "suites": [
+            {"suite": "trace", "quick": (400, "prio,contra,planted,malformed"), "thorough": (6000, "prio,contra,planted,malformed,linear,caps")},
+        ],
+        "oracles": [
+            {"bin": "oracle_c07", "quick": ("{seed}", "1000"), "thorough": ("{seed}", "30000")},
+        ],
+        "partial": ["values_by_id_partial: proved under 'guess ids are 0..n in order'; false of the code otherwise (known finding F5, negation witness values_by_id_fails_when_permuted)"],
+        "assumptions": [],
+    },
+    "C10": {
+        "modules": ["Ezpz.Properties.C10"],
+        "suites": [
+            {"suite": "trace", "quick": (300, "planted,prio,contra,linear"), "thorough": (5000, "planted,prio,contra,linear,caps,malformed")},
+        ],
+        "oracles": [
+            {"bin": "oracle_c10", "quick": ("{seed}", "800"), "thorough": ("{seed}", "20000"), "digest_twice": True},
+        ],
+        "partial": ["analysis_only_adds_failure_partial: proved under 'the analysis succeeds at every attempted level'; without it the statement is false of the code (known finding F10)",
+                    "bit-reproducibility of faer and libm across processes is sampled (digest of all results compared between two fresh processes), not proved"],
+        "assumptions": ["faer is built without the rayon feature (extracted from Cargo.toml on this run): sequential linear algebra"],
+    },
+    "C11": {
+        "modules": ["Ezpz.Properties.C11"],
+        "suites": [
+            {"suite": "trace", "quick": (300, "planted,linear,prio"), "thorough": (5000, "planted,linear,prio,caps,contra")},
+        ],
+        "oracles": [
+            {"bin": "oracle_c11", "quick": ("{seed}", "600"), "thorough": ("{seed}", "20000")},
+        ],
+        "partial": ["results that stopped on the step-size test or fell back to a higher level are not 'converged' in the property's sense; the theorems' hypotheses say so (ghost flag byResidual / ConvergedAt)"],
+        "assumptions": [],
+    },
 }
